@@ -272,6 +272,37 @@ def generate(tier, seed, ctx):
             if ok2:
                 add("c13.fam2 %s %d %s %s %s %s 1 %s %s" % (m, ok2[0], hx(x1), hx(x2), hx(y1), hx(y2), _famstr(g), _famstr(h)),
                     cls="fam-odd", orient=0, pc=ok2[0])
+    # ---- histories in one process (theorem int_history_independent) ---------------------------------------------
+    # coarse explicit Gauss-Legendre_2 call, then a finer/default call on IDENTICAL limits; mixed with other methods
+    # and limits; 2-D nested calls after a coarse 1-D call on the inner / outer limits
+    G = "Gauss-Legendre_2"
+    def m1(meth, p, a, b, f):
+        return "1 %s %d %s %s %s" % (meth, p, hx(a), hx(b), _famstr(f))
+    def m2(meth, p, x1, x2, y1, y2, g, h):
+        return "2 %s %d %s %s %s %s %s %s" % (meth, p, hx(x1), hx(x2), hx(y1), hx(y2), _famstr(g), _famstr(h))
+    def seq(mem):
+        add("c13.seq %d %s" % (len(mem), " ".join(mem)), cls="seq")
+    osc = (0, 1.0, 2 * math.pi, 0.0)                 # exp(-x) cos(2 pi x) on [0,2]
+    for (p1, p2) in ((4, 0), (3, 30), (5, 41), (30, 4), (4, 31), (0, 4)):
+        seq([m1(G, p1, 0.0, 2.0, osc), m1(G, p2, 0.0, 2.0, osc)])
+    for t in range(3 * rep):
+        a, b = _pair(rng, -5, 5, 0)
+        f, g2 = _fam(rng, a, b), _fam(rng, a, b)
+        c, d = _pair(rng, -5, 5, t % 2)
+        h = _fam(rng, c, d)
+        other = rng.choice(["Tanh-Sinh", "Gauss-Legendre", "Gauss-Kronrod", "Adaptive-Simpson"])
+        coarse = rng.choice([3, 4, 5, 7])
+        fine = rng.choice([0, 30, 41, 25])
+        seq([m1(G, coarse, a, b, f), m1(G, fine, a, b, f)])
+        seq([m1(G, coarse, a, b, f), m1(G, fine, b, a, g2)])                      # reversed limits, other integrand
+        seq([m1(G, coarse, a, b, f), m1(other, 0, a, b, f), m1(G, fine, a, b, g2)])  # another method in between
+        seq([m1(G, coarse, a, b, f), m1(G, fine, c, d, h), m1(G, fine, a, b, f)])    # other limits in between
+        seq([m1(other, 0, a, b, f), m1(G, fine, a, b, f), m1(G, coarse, a, b, f), m1(other, 0, c, d, h)])
+        (x1, x2), (y1, y2) = _disjoint_pairs(rng, 2, rng.randrange(4))
+        gx, hy = _fam(rng, x1, x2), _fam(rng, y1, y2)
+        seq([m1(G, coarse, y1, y2, hy), m2(G, fine, x1, x2, y1, y2, gx, hy)])     # coarse call on the inner limits first
+        seq([m1(G, coarse, x1, x2, gx), m2(G, fine, x1, x2, y1, y2, gx, hy)])     # ... on the outer limits first
+        seq([m2(G, coarse, x1, x2, y1, y2, gx, hy), m2(G, fine, x1, x2, y1, y2, gx, hy), m1(G, fine, y1, y2, hy)])
     # ---- Monte-Carlo front ends --------------------------------------------------------------------
     for m in MC:
         for t in range(2 * rep):
@@ -414,6 +445,65 @@ def _fams(tk, pos, n):
     return out
 
 
+def _seq_members(a):
+    k = int(a[0]); pos = 1; mem = []
+    for _ in range(k):
+        dim = int(a[pos]); meth = a[pos + 1]; p = int(a[pos + 2]); pos += 3
+        lim = [fl(t) for t in a[pos:pos + 2 * dim]]; pos += 2 * dim
+        fams = _fams(a, pos, dim); pos += 4 * dim
+        mem.append((dim, meth, p, lim, fams))
+    return mem
+
+
+def _member_str(c):
+    dim, meth, p, lim, fams = c
+    return "%s(%s, p=%d, limits %s)" % ("Integrate" if dim == 1 else "Integrate_2D", meth, p, ", ".join("%.6g" % v for v in lim))
+
+
+def compare_seq(rq, impl, model, ctx):
+    """history (class D, theorem int_history_independent): every call of a sequence made in one process returns
+    bit for bit what the same call returns alone in a fresh process; plus the accuracy clause on every member"""
+    a = rq.split()[1:]
+    mem = _seq_members(a)
+    k = len(mem)
+    fs, both = std_outcome(rq, impl, model)
+    if tag(impl) == "timeout":
+        return [fail("prop", "integration does not terminate within the time limit", rq[:80])]
+    if not both:
+        return fs
+    t = toks(impl)
+    if len(t) != 2 * k + 2 or t[k + 1] != "alone":
+        return fs + [fail("corr", "protocol", impl[:100])]
+    out = list(fs)
+    ctx["nontrivial"].add(("c13.seq", tuple((c[0], c[1], c[2]) for c in mem)))
+    for i, c in enumerate(mem):
+        dim, meth, p, lim, fams = c
+        sv, av = t[1 + i], t[k + 2 + i]
+        if sv != av:
+            out.append(fail("prop", "result of a named 1-D method depends on the calls made before it",
+                            "%s returned %r after [%s], %r when made alone in a fresh process"
+                            % (_member_str(c), fl(sv), "; ".join(_member_str(x) for x in mem[:i]), fl(av))))
+        # accuracy of the member (only where a correct rule with that parameter can reach it)
+        n_eff = 30 if p == 0 else p
+        pairs = [(lim[2 * j], lim[2 * j + 1]) for j in range(dim)]
+        if meth == "Gauss-Legendre_2" and not all(_gl_reaches(f, x1, x2, n_eff) for f, (x1, x2) in zip(fams, pairs)):
+            continue
+        ref, sc = Fraction(1), Fraction(1)
+        for f, (x1, x2) in zip(fams, pairs):
+            I, A, S = _fam_ref(f, x1, x2)
+            ref *= Fraction(float(I)) + Fraction(float(I - float(I)))
+            sc *= Fraction(float(A))
+        rel = REL.get(meth, REL_DEFAULT) * dim
+        v = fl(sv)
+        if math.isnan(v) or math.isinf(v) or abs(Fraction(v) - ref) > rel * sc:
+            out.append(fail("prop", "1-D integral outside the method's accuracy" if dim == 1 else
+                            "separable integrand: result is not the product of the 1-D integrals",
+                            "%s in a sequence: %r vs %.17g (scale %.3g)" % (_member_str(c), v, float(ref), float(sc))))
+        elif sc:
+            _worst(ctx, "seq %s err/tol" % meth, float(abs(Fraction(v) - ref) / (rel * sc)))
+    return out
+
+
 def compare(rq, impl, model, ctx):
     tk = rq.split()
     op, a = tk[0], tk[1:]
@@ -423,6 +513,8 @@ def compare(rq, impl, model, ctx):
         if tag(model) != "ok" or any(fr(t) != 0 for t in toks(model)):
             return [fail("corr", "driver self-test (Newton-Cotes reference rule) failed", model[:200])]
         return []
+    if op == "c13.seq":
+        return compare_seq(rq, impl, model, ctx)
     fs, both = std_outcome(rq, impl, model)
     if op.startswith("c13.outcome"):
         ctx["nontrivial"].add((op, a[0], tag(model)))
@@ -559,7 +651,7 @@ def oracle_only(rq, impl, ctx):
     op, a = tk[0], tk[1:]
     if op in ("c13.selftest", "c13.checklimits", "c13.findeps"):
         return []
-    if op in ("c13.default1", "c13.sphdefault"):
+    if op in ("c13.default1", "c13.sphdefault", "c13.seq"):
         model = "ok"
     elif op.startswith("c13.outcome"):
         nm = a[0]
